@@ -151,7 +151,37 @@ def inline_patterns(module, func_name, call_names=("sub", "match")):
     return out
 
 
+FAILURES = []  # (coq name, reason) of patterns that could not be translated in this run
+
+
+def emit_placeholder(out, coq_name, want_groups, reason):
+    """A pattern the translator does not understand is replaced by the pattern that matches nothing: the development
+    still builds for the properties that do not use it, while every proof or correspondence about this pattern breaks."""
+    FAILURES.append((coq_name, str(reason)))
+    out.append(f"(* TRANSLATION FAILED (fail closed for this pattern only): {str(reason).replace('*)', '* )')} *)")
+    out.append(f"Definition {coq_name} : rx := Nul.")
+    out.append(f"Definition {coq_name}_end : end_anchor := NoEnd.")
+    out.append(f"Definition {coq_name}_ngroups : nat := 0%nat.")
+    for g in want_groups:
+        out.append(f"Definition {coq_name}_g_{g} : nat := 0%nat.")
+
+
 def emit_one(out, coq_name, pattern, flags, want_groups=()):
+    tmp = []
+    try:
+        _emit_one(tmp, coq_name, pattern, flags, want_groups)
+    except TranslateError as e:
+        emit_placeholder(out, coq_name, want_groups, e)
+        return
+    except Exception as e:  # noqa: BLE001  (errors of re._parser on patterns it rejects, etc.)
+        emit_placeholder(out, coq_name, want_groups, f"{type(e).__name__}: {e}")
+        return
+    out.extend(tmp)
+
+
+def _emit_one(out, coq_name, pattern, flags, want_groups=()):
+    if pattern is None:
+        raise TranslateError("not a compiled pattern")
     if isinstance(pattern, bytes):
         pattern_s = pattern.decode("latin-1")
     else:
@@ -173,14 +203,31 @@ def emit_regexes(out):
     out.append("From SV Require Import Rx.Syntax.")
     out.append("")
 
+    class _Missing:
+        def __init__(self, why):
+            self.pattern, self.flags, self.why = None, 0, why
+
     def compiled(mod, attr):
         p = getattr(mod, attr, None)
         if not isinstance(p, re.Pattern):
-            raise TranslateError(f"{mod.__name__}.{attr} is not a compiled pattern")
+            return _Missing(f"{mod.__name__}.{attr} is not a compiled pattern")
         return p
 
+    # how the patterns are applied is part of what the model assumes: <pattern>.match(text).  If that changes, the
+    # pattern is treated as untranslatable (for that pattern only).
+    def applied_with_match(what, src, needle):
+        return None if needle in src else f"{what} is no longer applied with {needle}"
+
+    try:
+        src = inspect.getsource(fl._unpack_simple_filter) + inspect.getsource(fl._unpack_filter_extensible_header)
+        why = applied_with_match("_ATTRIBUTE_PATTERN", src, "_ATTRIBUTE_PATTERN.match(")
+    except Exception as e:  # noqa: BLE001
+        why = f"{type(e).__name__}: {e}"
     p = compiled(fl, "_ATTRIBUTE_PATTERN")
-    emit_one(out, "rx_attribute", p.pattern, p.flags)
+    if why:
+        emit_placeholder(out, "rx_attribute", (), why)
+    else:
+        emit_one(out, "rx_attribute", p.pattern, p.flags)
     p = compiled(fl, "_HEX_PATTERN")
     emit_one(out, "rx_hex", p.pattern, p.flags)
     p = compiled(fl, "_LDAP_ESCAPE_PATTERN")
@@ -189,38 +236,34 @@ def emit_regexes(out):
     emit_one(out, "rx_string_escape", p.pattern, p.flags & ~re.UNICODE)
 
     common = ["oid", "name", "desc", "obsolete", "extensions"]
-    p = compiled(sch, "OBJECT_CLASS_DESCRIPTION")
-    emit_one(out, "rx_object_class", p.pattern, p.flags, common + ["sup", "kind", "must", "may"])
-    p = compiled(sch, "ATTRIBUTE_TYPE_DESCRIPTION")
-    emit_one(
-        out,
-        "rx_attribute_type",
-        p.pattern,
-        p.flags,
-        common + ["sup", "equality", "ordering", "substr", "syntax", "single_value", "collective", "no_user_modification", "usage"],
-    )
-    p = compiled(sch, "DIT_CONTENT_RULE_DESCRIPTION")
-    emit_one(out, "rx_dit_content_rule", p.pattern, p.flags, common + ["aux", "must", "may", "not"])
+    for coq_name, attr, cls_name, groups in (
+        ("rx_object_class", "OBJECT_CLASS_DESCRIPTION", "ObjectClassDescription", common + ["sup", "kind", "must", "may"]),
+        ("rx_attribute_type", "ATTRIBUTE_TYPE_DESCRIPTION", "AttributeTypeDescription",
+         common + ["sup", "equality", "ordering", "substr", "syntax", "single_value", "collective", "no_user_modification", "usage"]),
+        ("rx_dit_content_rule", "DIT_CONTENT_RULE_DESCRIPTION", "DITContentRuleDescription", common + ["aux", "must", "may", "not"]),
+    ):
+        try:
+            why = applied_with_match(f"{cls_name}.from_string", inspect.getsource(getattr(sch, cls_name).from_string), ".match(value)")
+        except Exception as e:  # noqa: BLE001
+            why = f"{type(e).__name__}: {e}"
+        p = compiled(sch, attr)
+        if why:
+            emit_placeholder(out, coq_name, groups, why)
+        else:
+            emit_one(out, coq_name, p.pattern, p.flags, groups)
     p = compiled(sch, "NOIDLEN_MATCH")
     emit_one(out, "rx_noidlen", p.pattern, p.flags, ["value", "len"])
 
-    enc = inline_patterns(sch, "_encode_qdstring")
-    if len(enc) != 1 or enc[0][0] != "sub":
-        raise TranslateError(f"_encode_qdstring: expected exactly one re.sub, found {enc}")
-    emit_one(out, "rx_qd_escape", enc[0][1], enc[0][2])
-    dec = inline_patterns(sch, "_parse_qdstring")
-    if len(dec) != 1 or dec[0][0] != "sub":
-        raise TranslateError(f"_parse_qdstring: expected exactly one re.sub, found {dec}")
-    emit_one(out, "rx_qd_unescape", dec[0][1], dec[0][2])
+    for coq_name, func in (("rx_qd_escape", "_encode_qdstring"), ("rx_qd_unescape", "_parse_qdstring")):
+        try:
+            found = inline_patterns(sch, func)
+            if len(found) != 1 or found[0][0] != "sub":
+                raise TranslateError(f"{func}: expected exactly one re.sub, found {found}")
+        except TranslateError as e:
+            emit_placeholder(out, coq_name, (), e)
+            continue
+        emit_one(out, coq_name, found[0][1], found[0][2])
 
-    # how from_string applies the description regexes: .match (prefix) -- record it
-    for cls_name in ("ObjectClassDescription", "AttributeTypeDescription", "DITContentRuleDescription"):
-        src = inspect.getsource(getattr(sch, cls_name).from_string)
-        if ".match(value)" not in src:
-            raise TranslateError(f"{cls_name}.from_string no longer uses <pattern>.match(value)")
-    src = inspect.getsource(fl._unpack_simple_filter) + inspect.getsource(fl._unpack_filter_extensible_header)
-    if "_ATTRIBUTE_PATTERN.match(" not in src:
-        raise TranslateError("_ATTRIBUTE_PATTERN is no longer applied with .match()")
 
     # CPython's str.isspace() for the code points LDAPFilter.from_string's strip() can remove
     spaces = [cp for cp in range(0x110000) if chr(cp).isspace()]
